@@ -83,7 +83,13 @@ class Builder:
                 st_ = {"and": S.AndState, "or": S.OrState, "xor": S.XorState}[t](a, b)
         elif t == "not":
             a = self.build(s["a"])
-            st_ = ~a if self.how in ("op", "subset") else S.InvertState(a)
+            if self.how == "subset":
+                from glue.core.subset import Subset
+                sa = Subset(None)
+                sa.subset_state = a
+                st_ = (~sa).subset_state
+            else:
+                st_ = ~a if self.how == "op" else S.InvertState(a)
         elif t == "multior":
             st_ = S.MultiOrState([self.build(c) for c in s["states"]])
         else:
@@ -184,9 +190,16 @@ def fn_tree(spec, rec):
     if vs and leaves_accept_view(data, leaves, vs, rec):
         view = gen.build_view(vs, data.shape)
         check_mask(data.get_mask(tree, view), expected[view] if view is not None else expected, "view-of-composite-differs", vs)
-    # copies
+    # copies (state.copy(), and pasting a subset's selection onto another subset of the dataset)
     c = tree.copy()
     check_mask(data.get_mask(c), expected, "copy-differs")
+    src, dst = data.new_subset(), data.new_subset()
+    src.subset_state = tree
+    dst.paste(src)
+    if dst.subset_state is tree:
+        raise Mismatch("paste-shares-the-state-object", None)
+    check_mask(np.asarray(dst.to_mask()), expected, "pasted-subset-differs")
+    check_mask(np.asarray(src.to_mask()), expected, "subset-differs-after-being-pasted")
     check_mask(data.get_mask(tree), expected, "original-differs-after-copy-evaluated")
     # every operand is unaltered: parameters and own mask
     for st_, sub, snap in b.nodes:
